@@ -285,7 +285,7 @@ def _c16(E, tier, seed, res):
     procs = [subprocess.Popen([binary, str(ns), str(nc), str(seed * 1000 + i)], stdout=subprocess.PIPE, stderr=subprocess.PIPE,
                               text=True, errors="replace") for i in range(nproc)]
     cov = res["coverage"]
-    tot = dict(strings=0, trees_ok=0, trees_err=0, contexts=0, contexts_round_tripped=0)
+    tot = dict(strings=0, trees_ok=0, trees_err=0, blank_variant_siblings=0, contexts=0, contexts_round_tripped=0)
     for i, p in enumerate(procs):
         try:
             out, err = p.communicate(timeout=3000)
